@@ -77,6 +77,8 @@ class Norm:
                 l, r, op = r, l, {"<": ">", "<=": ">="}[op]   # one orientation for ordering comparisons
             if op == ">" and r == "0":
                 return l  # unsigned truthiness
+            if op == "!=" and "0" in (l, r):
+                return r if l == "0" else l
             return "(%s%s%s)" % (l, op, r)
         if k == "Cond":
             return "(%s?%s:%s)" % (self.key(e["c"], depth), self.key(e["a"], depth), self.key(e["e"], depth))
